@@ -145,6 +145,13 @@ func (c *HeartbeatManager) updateHeartbeatData(stopC chan struct{}, d time.Durat
 	for {
 		select {
 		case <-ticker.C:
+			// select picks any of the ready cases: a tick that became due while the previous
+			// refresh was still being notified must not win against a stop that came in meanwhile
+			select {
+			case <-stopC:
+				return
+			default:
+			}
 
 			heartbeatData := c.heartbeatData(time.Now().UTC(), c.heartBeatCounter())
 
